@@ -304,7 +304,49 @@ func c17Run(in *c17Input) Res {
 	}
 	runtime.ReadMemStats(&ms2)
 	res["alloc"] = ms2.TotalAlloc - ms1.TotalAlloc
+	// the same bytes as a stored value, read through the store-level getter
+	if g := storeGetter(in.Kind, b); g != "" {
+		res["getter"] = g
+	}
 	return res
+}
+
+// storeGetter puts the bytes under an object key and reads them with objects.GetCommit / GetTable /
+// GetTableProfile (the path `wrgl` takes for every stored object): "ok", "err" or "panic"; "" when
+// the kind has no plain (uncompressed) stored form.
+func storeGetter(kind string, b []byte) (out string) {
+	var prefix string
+	switch kind {
+	case "commit":
+		prefix = "com/"
+	case "table":
+		prefix = "tbl/"
+	case "profile":
+		prefix = "tblsum/"
+	default:
+		return ""
+	}
+	db := NewMemStore()
+	sum := fakeSum(7)
+	db.Set(append([]byte(prefix), sum...), b)
+	defer func() {
+		if r := recover(); r != nil {
+			out = "panic"
+		}
+	}()
+	var err error
+	switch kind {
+	case "commit":
+		_, err = objects.GetCommit(db, sum)
+	case "table":
+		_, err = objects.GetTable(db, sum)
+	case "profile":
+		_, err = objects.GetTableProfile(db, sum)
+	}
+	if err != nil {
+		return "err"
+	}
+	return "ok"
 }
 
 func c17Emit(ctx *Ctx, in *c17Input, tags ...string) {
